@@ -92,6 +92,17 @@ theorem within_replicate_append (lo hi : Int) (a : List Int) (los his xs : List 
     have := h (i - a.length) (by simp at hil; omega)
     simpa [List.getD_eq_getElem?_getD] using this
 
+theorem within1 (lo hi : Int) (a : List Int) (h : AllIn lo hi a) :
+    inputsWithin (List.replicate a.length lo) (List.replicate a.length hi) a := by
+  have := within_replicate_append lo hi a [] [] [] h rfl rfl within_nil
+  simpa using this
+
+/-- prepend one uniformly bounded block to an already bounded input vector -/
+theorem within_cons_block (lo hi : Int) (a : List Int) (los his xs : List Int) (ha : AllIn lo hi a)
+    (h : inputsWithin los his xs) (hl : los.length = xs.length) (hh : his.length = xs.length) :
+    inputsWithin (List.replicate a.length lo ++ los) (List.replicate a.length hi ++ his) (a ++ xs) :=
+  within_replicate_append lo hi a los his xs ha hl hh h
+
 theorem allIn_replicate (lo hi v : Int) (n : Nat) (h1 : lo ≤ v) (h2 : v ≤ hi) :
     AllIn lo hi (List.replicate n v) := by
   intro x hx; rw [List.eq_of_mem_replicate hx]; exact ⟨h1, h2⟩
